@@ -53,6 +53,7 @@ impl<T: RealNumber> DenseMatrix<T> {
         }
     }
 
+    #[verifier::loop_isolation(false)]
 //@extract src/linalg/naive/dense_matrix.rs :: impl<T: RealNumber> BaseMatrix<T> for DenseMatrix<T> :: matmul :: ret=result
 //@spec
         requires self.wf(), other.wf(), self.ncols == other.nrows, self.nrows * other.ncols <= usize::MAX,
@@ -62,18 +63,18 @@ impl<T: RealNumber> DenseMatrix<T> {
 //@enter
         proof { T::ops_total(); }
 //@loop 1
-            invariant self.wf(), other.wf(), self.ncols == other.nrows, inner_d == self.ncols,
+            invariant self.wf(), other.wf(), self.ncols == other.nrows,
                 result.wf(), result.nrows == self.nrows, result.ncols == other.ncols,
                 forall|r2: int, c2: int| 0 <= r2 < r && 0 <= c2 < other.ncols ==> result.at(r2, c2) == self.dot_rc(false, other, false, r2, c2, self.ncols as int),
 //@loop 2
-                invariant self.wf(), other.wf(), self.ncols == other.nrows, inner_d == self.ncols, r < self.nrows,
+                invariant self.wf(), other.wf(), self.ncols == other.nrows, r < self.nrows,
                     result.wf(), result.nrows == self.nrows, result.ncols == other.ncols,
                     forall|r2: int, c2: int| 0 <= r2 < r && 0 <= c2 < other.ncols ==> result.at(r2, c2) == self.dot_rc(false, other, false, r2, c2, self.ncols as int),
                     forall|c2: int| 0 <= c2 < c ==> result.at(r as int, c2) == self.dot_rc(false, other, false, r as int, c2, self.ncols as int),
 //@loop 3
-                    invariant self.wf(), other.wf(), self.ncols == other.nrows, inner_d == self.ncols, r < self.nrows, c < other.ncols,
+                    invariant self.wf(), other.wf(), self.ncols == other.nrows, r < self.nrows, c < other.ncols,
                         s == self.dot_rc(false, other, false, r as int, c as int, i as int),
-//@before s += self.get(r, i) * other.get(i, c);
+//@loopbody 3
                     proof { T::ops_total(); }
 //@end
 
@@ -103,7 +104,7 @@ impl<T: RealNumber> DenseMatrix<T> {
                         invariant self.wf(), b.wf(), a_transpose || b_transpose, r < d2, c < d3,
                             d1 == self.cols_t(a_transpose), d2 == self.rows_t(a_transpose), d3 == b.cols_t(b_transpose), d4 == b.rows_t(b_transpose), d1 == d4,
                             s == self.dot_rc(a_transpose, b, b_transpose, r as int, c as int, i as int),
-//@before match (a_transpose, b_transpose) { ##2
+//@loopbody 3
                         proof { T::ops_total(); }
 //@end
 
@@ -120,7 +121,7 @@ impl<T: RealNumber> DenseMatrix<T> {
 //@loop 1
             invariant self.wf(), other.wf(), self.nrows * self.ncols == other.nrows * other.ncols,
                 result == self.dot_flat(other, i as int),
-//@before result += self.values[i] * other.values[i];
+//@loopbody 1
             proof { T::ops_total(); }
 //@end
 }
